@@ -3,6 +3,7 @@ units."""
 from __future__ import annotations
 
 import ast
+import re
 
 from .. import effects, facts, scale
 from ..astutil import (call_name, calls_in, const_str, dotted, func_params,
@@ -156,6 +157,100 @@ def r2_nan_not_error(ctx):
             ctx.fail(node, f"{chain[-1]}: read {norm(node)}",
                      f"fit_properties['{k}'] read unguarded via "
                      f"{' -> '.join(chain)} (KeyError for unfitted curves)")
+    # index reductions that raise instead of yielding NaN
+    for name, f in sorted(feats.items()):
+        Rf = Resolver(f)
+        # data derived from the fit (all NaN when the fit covers the other
+        # segment) and from the x axis
+        fitlike = set()
+        changed = True
+        while changed:
+            changed = False
+            for st in walk_no_nested(f, False):
+                if isinstance(st, ast.Assign) and isinstance(
+                        st.targets[0], ast.Name) and \
+                        st.targets[0].id not in fitlike:
+                    t = norm(st.value)
+                    if "datafit_apr" in t or "datares_apr" in t or any(
+                            isinstance(x, ast.Name) and x.id in fitlike
+                            for x in ast.walk(st.value)):
+                        fitlike.add(st.targets[0].id)
+                        changed = True
+        for c in calls_in(f):
+            short = (call_name(c) or "").split(".")[-1]
+            if short not in ("argmin", "argmax", "nanargmin", "nanargmax") \
+                    or not c.args:
+                continue
+            a0 = c.args[0]
+            if short.startswith("nan"):
+                dep = any((isinstance(x, ast.Name) and x.id in fitlike)
+                          or (isinstance(x, ast.Attribute) and x.attr in (
+                              "datafit_apr", "datares_apr"))
+                          for x in ast.walk(a0))
+                ctx.check(not dep, c,
+                          f"{name}: {norm(c)[:40]} not on fit-derived data",
+                          f"feature {name} calls {short} on data derived "
+                          f"from the fit: the fit column is NaN over the "
+                          f"whole approach part when the other segment was "
+                          f"fitted, and {short} raises ValueError on an "
+                          f"all-NaN slice instead of the feature being NaN")
+            # slices that can be empty
+            inner = a0
+            while isinstance(inner, ast.Call) and inner.args:
+                inner = inner.args[0]
+            if isinstance(inner, ast.Subscript) and isinstance(
+                    inner.slice, ast.Slice) and inner.slice.lower is not None \
+                    and inner.slice.upper is not None:
+                lo, hi = norm(inner.slice.lower), norm(inner.slice.upper)
+                conds = conditions_at(c)
+                facts_ = set()
+                for a in conds:
+                    nd = a.node
+                    if a.pol and isinstance(nd, ast.Compare) and len(
+                            nd.ops) > 1 and all(isinstance(o, ast.Lt)
+                                                for o in nd.ops):
+                        # a < b < c
+                        seq = [nd.left] + list(nd.comparators)
+                        for x_, y_ in zip(seq, seq[1:]):
+                            facts_.add(f"{norm(x_)}<{norm(y_)}")
+                    elif a.pol:
+                        facts_.add(a.text.replace(" ", ""))
+                    else:
+                        facts_.add("not:" + a.text.replace(" ", ""))
+                want = {f"{hi}>{lo}", f"{lo}<{hi}", f"{hi}-{lo}>0",
+                        f"{hi}-{lo}>=1"}
+                # midpoint splits: m = a + (b - a) // 2
+                def midpoint(nm):
+                    v = Rf.resolve(ast.Name(id=nm, ctx=ast.Load())) \
+                        if nm.isidentifier() else None
+                    for st in walk_no_nested(f, False):
+                        if isinstance(st, ast.Assign) and norm(
+                                st.targets[0]) == nm:
+                            m_ = re.fullmatch(
+                                r"(\w+) \+ \((\w+) - (\w+)\) // 2",
+                                norm(st.value))
+                            if m_ and m_.group(1) == m_.group(3):
+                                return m_.group(1), m_.group(2)
+                    return None
+                mp = midpoint(hi)
+                if mp and mp[0] == lo:          # [a : a + (b-a)//2]
+                    b_ = mp[1]
+                    want |= {f"{b_}-{lo}>=2", f"{b_}-{lo}>1"}
+                mp = midpoint(lo)
+                if mp and mp[1] == hi:          # [a + (b-a)//2 : b], a <= b
+                    a_ = mp[0]
+                    want |= {f"{hi}>{a_}", f"{a_}<{hi}", f"{hi}-{a_}>=1",
+                             f"{hi}-{a_}>=2", f"{hi}-{a_}>1",
+                             f"not:{a_}=={hi}", f"not:{hi}=={a_}"}
+                ok = bool(facts_ & want)
+                ctx.check(ok, c,
+                          f"{name}: slice [{lo}:{hi}] known to be non-empty",
+                          f"feature {name} takes {short} of the slice "
+                          f"[{lo}:{hi}] without a test that {hi} > {lo}: "
+                          f"for an indentation part of one or two samples "
+                          f"the slice is empty and {short} raises "
+                          f"ValueError - the feature (and rate_quality) "
+                          f"raise instead of yielding NaN")
     # compute_features converts every feature to float (bool/NaN safe)
     cf = meths["compute_features"]
     ok = any(isinstance(c, ast.Call) and call_name(c) == "float"
